@@ -418,7 +418,7 @@ func (c *Cookie) ParseBytes(src []byte) error {
 				}
 
 			case 's': // "samesite"
-				if utils.CaseInsensitiveCompare(bytestr.StrCookieSameSite, kv.key) {
+				if len(kv.value) > 0 && utils.CaseInsensitiveCompare(bytestr.StrCookieSameSite, kv.key) {
 					// Case-insensitive switch on first char
 					switch kv.value[0] | 0x20 {
 					case 'l': // "lax"
